@@ -241,10 +241,26 @@ def _instance_state(chk, ctx) -> None:
     st = ctx.state
     n = 0
     for name, node in st.attr_nodes.items():
+        if isinstance(node, ast.Assign) and (isinstance(node.value, (ast.List, ast.Dict, ast.Set, ast.ListComp, ast.DictComp, ast.SetComp)) or (
+                isinstance(node.value, ast.Call) and isinstance(node.value.func, ast.Name) and node.value.func.id in ('list', 'dict', 'set', 'deque', 'defaultdict'))):
+            n += 1
+            chk.ob('C15.instance_state', f'State.{name}', False, ctx.loc(ctx.sfi('__post_init__'), node),
+                   'a mutable container of the state is created per instance (default_factory), never shared through the class', got=stmt_text(node))
         if not isinstance(node, ast.AnnAssign):
             continue
         ann = ast.unparse(node.annotation)
-        if 'ClassVar' in ann or 'InitVar' in ann or name == '_':
+        if 'InitVar' in ann or name == '_':
+            continue
+        if 'ClassVar' in ann:
+            # a class-level attribute holding a mutable container is state shared by every instance and every copy
+            v = node.value
+            shared = isinstance(v, (ast.List, ast.Dict, ast.Set, ast.ListComp, ast.DictComp, ast.SetComp)) or (
+                isinstance(v, ast.Call) and isinstance(v.func, ast.Name) and v.func.id in ('list', 'dict', 'set', 'deque', 'defaultdict'))
+            if shared:
+                n += 1
+                chk.ob('C15.instance_state', f'State.{name}', False, ctx.loc(ctx.sfi('__post_init__'), node),
+                       'a mutable container of the state is created per instance (default_factory), never shared through the class',
+                       got=stmt_text(node))
             continue
         mutable = ann.split('[')[0].split('|')[0].strip() in MUTABLE_ANN
         if not mutable:
